@@ -78,6 +78,8 @@ def expr(e, env):
             k, tk = expr(e.slice, env)
             return k, "FMT"
         i, ti = expr(e.slice, env)
+        if tb == "LIST PHDR" and ti == "Z":
+            return "(nth (Z.to_nat %s) %s gen_default_header)" % (i, b), "PHDR"
         if tb != "LIST Z" or ti != "Z":
             fail(e, "subscript")
         return "(nth (Z.to_nat %s) %s 0)" % (i, b), "Z"
@@ -96,6 +98,25 @@ def expr(e, env):
         f, tf = expr(e.value, env)
         if tf == "FMT":
             return "(gen_fmt_size %s)" % f, "Z"
+    if isinstance(e, ast.Attribute) and isinstance(e.value, ast.Subscript):
+        b, tb = expr(e.value, env)
+        if (tb, e.attr) in env.attrs:
+            f, ty = env.attrs[(tb, e.attr)]
+            return f(b), ty
+        fail(e, "attribute of a subscript")
+    if isinstance(e, ast.Call) and dotted(e.func) == "any" and len(e.args) == 1 and isinstance(e.args[0], ast.GeneratorExp):
+        g = e.args[0]
+        if len(g.generators) != 1 or g.generators[0].ifs or not isinstance(g.generators[0].target, ast.Name):
+            fail(e, "any(...) shape")
+        it, ity = expr(g.generators[0].iter, env)
+        if not ity.startswith("LIST "):
+            fail(e, "any over a non-list")
+        v = g.generators[0].target.id
+        saved = dict(env.locals)
+        env.locals[v] = ity[5:]
+        body = truthy(g.elt, env)
+        env.locals = saved
+        return "(existsb (fun %s => %s) %s)" % (v, body, it), "B"
     if isinstance(e, ast.Call):
         fn = dotted(e.func)
         if fn in env.calls and not e.keywords and len(e.args) == env.calls[fn][0]:
@@ -243,7 +264,7 @@ def expr(e, env):
 def eq(a, ta, b, tb, node):
     if ta != tb:
         fail(node, "comparison between %s and %s" % (ta, tb))
-    f = {"Z": "Z.eqb", "N": "N.eqb", "L": "list_eqb", "W": "wtype_eqb", "B": "Bool.eqb", "MT": "mtype_eqb"}[ta]
+    f = {"TEXT": "text_eqb", "Z": "Z.eqb", "N": "N.eqb", "L": "list_eqb", "W": "wtype_eqb", "B": "Bool.eqb", "MT": "mtype_eqb"}[ta]
     return "(%s %s %s)" % (f, a, b)
 
 
@@ -270,7 +291,7 @@ def always_returns(stmts):
 
 OPT_ANNOTATIONS = {"Optional[TCPMatch]": "OPT TMATCH", "Optional[HTTPRecord]": "OPT HTTPREC"}
 COQ_TYPES_EXTRA = {}
-COQ_TYPES = {"TEXT": "text", "LIST Z": "(list Z)", "FMT": "Z", "Z": "Z", "N": "N", "B": "bool", "MT": "mtype", "TCPREC": "tcp_rec", "MTUREC": "mtu_rec", "HTTPREC": "rec", "TMATCH": "(mtype * tcp_rec)"}
+COQ_TYPES = {"PHDR": "pkt_header", "SHDR": "sig_header", "TEXT": "text", "LIST Z": "(list Z)", "FMT": "Z", "Z": "Z", "N": "N", "B": "bool", "MT": "mtype", "TCPREC": "tcp_rec", "MTUREC": "mtu_rec", "HTTPREC": "rec", "TMATCH": "(mtype * tcp_rec)"}
 
 
 def coq_type(ty):
@@ -375,6 +396,14 @@ def assigned(stmts):
     return out
 
 
+LOOP_COUNTER = [0]
+
+
+def fresh_loop():
+    LOOP_COUNTER[0] += 1
+    return "loop%d" % LOOP_COUNTER[0]
+
+
 def block(stmts, env, ret, fall=None, brk=None):
     """ret: function (ast expr or None) -> coq term of the function's result type; fall: term to use when control
     reaches the end of the block (loop bodies), or None when that is an error"""
@@ -400,11 +429,12 @@ def block(stmts, env, ret, fall=None, brk=None):
         env.locals = dict(saved)
         test = truthy(s.test, env)
         args = " ".join("(%s : %s)" % (v, coq_type(env.locals[v])) for v in carried)
-        call = "(loop fuel'" + "".join(" " + v for v in carried) + ")"
+        ln = fresh_loop()
+        call = "(%s %s_fuel'" % (ln, ln) + "".join(" " + v for v in carried) + ")"
         body = block(list(s.body), env, ret, call, after)
         env.locals = saved
-        return ("((fix loop (fuel : nat) %s {struct fuel} := match fuel with\n | O => Err OutOfFuel\n | S fuel' => if %s\n then %s\n else %s\n end) fuel0%s)"
-                % (args, test, body, after, "".join(" " + v for v in carried)))
+        return ("((fix %s (%s_fuel : nat) %s {struct %s_fuel} := match %s_fuel with\n | O => Err OutOfFuel\n | S %s_fuel' => if %s\n then %s\n else %s\n end) fuel0%s)"
+                % (ln, ln, args, ln, ln, ln, test, body, after, "".join(" " + v for v in carried)))
     if isinstance(s, ast.Expr) and isinstance(s.value, ast.Call) and isinstance(s.value.func, ast.Attribute) and s.value.func.attr == "append" \
             and isinstance(s.value.func.value, ast.Name) and env.locals.get(s.value.func.value.id, "").startswith("LIST "):
         x = s.value.func.value.id
@@ -432,15 +462,16 @@ def block(stmts, env, ret, fall=None, brk=None):
         elt = ity[5:]
         carried = [v for v in assigned(s.body) if v in env.locals]
         args = " ".join("(%s : %s)" % (v, coq_type(env.locals[v])) for v in carried)
-        call = "loop_rest" + "".join(" " + v for v in carried)
+        ln = fresh_loop()
+        call = "%s_rest" % ln + "".join(" " + v for v in carried)
         saved = dict(env.locals)
         nil_case = block(rest, env, ret, fall, brk)
         env.locals = dict(saved)
         env.locals[s.target.id] = elt
-        cons_case = block(list(s.body), env, ret, "(loop %s)" % call)
+        cons_case = block(list(s.body), env, ret, "(%s %s)" % (ln, call))
         env.locals = saved
-        return ("((fix loop (loop_list : list %s) %s {struct loop_list} := match loop_list with\n | [] => %s\n | %s :: loop_rest => %s\n end) %s%s)"
-                % (coq_type(elt), args, nil_case, s.target.id, cons_case, it, "".join(" " + v for v in carried)))
+        return ("((fix %s (%s_list : list %s) %s {struct %s_list} := match %s_list with\n | [] => %s\n | %s :: %s_rest => %s\n end) %s%s)"
+                % (ln, ln, coq_type(elt), args, ln, ln, nil_case, s.target.id, ln, cons_case, it, "".join(" " + v for v in carried)))
     # 'if X is None: <block that never falls through>'  refines X to its content afterwards
     if isinstance(s, ast.If) and not s.orelse and isinstance(s.test, ast.Compare) and isinstance(s.test.ops[0], ast.Is) \
             and isinstance(s.test.left, ast.Name) and env.locals.get(s.test.left.id, "").startswith("OPT ") \
@@ -871,6 +902,23 @@ def gen_http(repo, consts):
              ("HTTPREC", "signature.expected_software"): (lambda b: "(match http_of %s with Some s => hs_software s | None => None end)" % b, "OPT TEXT")}
     env = Env({"packet_signature": ("tt", "PSIG"), "HTTPRecord": ("tt", "CLS"), "direction": ("tt", "DIR")}, consts, calls, attrs)
     out.append("Definition gen_find_http_match (ver : Z) (hs : list pkt_header) (recs : list rec) : option rec :=\n %s." % block(f.body, env, opt_ret("HTTPREC")))
+    # headers_match: the ordered header walk
+    f = find_function(ast.parse(open(os.path.join(repo, "pyp0f/fingerprint/http.py")).read()), "headers_match")
+    if [a.arg for a in f.args.args] != ["signature_headers", "packet_headers"]:
+        fail(f, "headers_match parameters")
+    hattrs = {("SHDR", "lower_name"): (lambda b: "(lower (sh_name %s))" % b, "TEXT"), ("SHDR", "is_optional"): (lambda b: "(sh_optional %s)" % b, "B"),
+              ("SHDR", "value"): (lambda b: "(sh_value %s)" % b, "OPT TEXT"),
+              ("PHDR", "lower_name"): (lambda b: "(lname %s)" % b, "TEXT"), ("PHDR", "value"): (lambda b: "(ph_value %s)" % b, "TEXT")}
+    env = Env({"signature_headers": ("sh", "LIST SHDR"), "packet_headers": ("ph", "LIST PHDR")}, consts, {}, hattrs)
+
+    def bret(v, env):
+        t, ty = expr(v, env)
+        if ty != "B":
+            fail(v, "return type")
+        return "(Ok %s)" % t
+    out.append("Definition gen_default_header : pkt_header := {| ph_name := []; ph_value := [] |}.")
+    out.append("Definition gen_headers_match (fuel0 : nat) (sh : list sig_header) (ph : list pkt_header) : res bool :=\n %s." % block(
+        [s for s in f.body if not (isinstance(s, ast.Expr) and isinstance(s.value, ast.Constant))], env, bret))
     # HTTP.software
     f = find_function(ast.parse(open(os.path.join(repo, "pyp0f/net/layers/http/http.py")).read()), "software", cls="HTTP")
     body = [s for s in f.body if not (isinstance(s, ast.Expr) and isinstance(s.value, ast.Constant))]
@@ -909,6 +957,7 @@ Definition mtype_eqb (a b : mtype) : bool :=
 
 
 def main(repo, out):
+    LOOP_COUNTER[0] = 0
     consts = common_consts(repo)
     parts = [HEADER % repo, gen_win_multi(repo, consts), gen_match(repo, consts), gen_round(repo, consts), gen_guess(repo, consts), gen_gates(repo, consts), gen_valid(repo, consts), gen_loops(repo, consts), gen_options(repo, consts), gen_http(repo, consts)]
     open(out, "w").write("\n\n".join(parts) + "\n")
